@@ -142,13 +142,18 @@ def run(ctx):
             ctx.fail("regressions", "%s: %s" % (name, detail), {"kind": "defect", "name": name})
     n_graphs = 40 if q else 500
     ctx.bound("%d random valid rGFAs (2-5 reference segments of length 1-3 per chromosome, 0-3 bubbles whose alleles come from haplotype "
-              "contigs with adjacent / separated / mixed segments, optional inversion links and self link, 1-2 chromosomes); per graph: ALL walks "
+              "contigs with adjacent / separated / mixed segments, optional inversion links and self link, 1-2 chromosomes; every second file with shuffled lines); per graph: ALL walks "
               "of <= 3 steps x ALL canonical (start,end) pairs (capped at 400 records, cut into files of 1-50 records) plus 2 files of walks "
               "of 4-5 steps; '+' strand; 0-4 random optional fields, cg:Z present (random CIGAR, any position) or absent; some inputs BGZF" % n_graphs)
     d = ctx.dir("c02")
     for gi in range(n_graphs):
         g = make_graph(rng)
         gfa = g.lines()
+        if gi % 2 == 1:
+            # an rGFA need not be sorted: every second graph is written with shuffled S / L lines, so a contig's segments are not in SO order in
+            # the file (added after seeded change C02-4)
+            gfa = list(gfa)
+            rng.shuffle(gfa)
         gkey = tuple(l for l in gfa if l[0] == "S")
         cands = [(w, s, e) for w in g.walks(3) for (s, e) in canonical_ranges(g, w)]
         if len(cands) > 400:
